@@ -139,4 +139,15 @@ CLAIMED['C16'] = {
     'technique': 'contract-based deductive verification (relational loop invariants shared with cmd_run, z3) + bounded oracle comparing up / discover / explain on generated budgets',
 }
 
+CLAIMED['C20'] = {
+    'category': 'proof',
+    'text': 'Write-site closure: the file-system write primitives of the package are re-enumerated from the AST on every run and the sites reachable over the static call '
+            'graph from up / explain / discover / diag / inspect must lie in the allowed set (report writer; migration helper for up only). Proved by symbolic execution over a '
+            'ghost file system: migration is reached only on --migrate or an interactive y, only for a legacy CSV, with backup; the report goes to args.output or '
+            '<budget>/<output_dir>/<html_filename>; init_config writes only non-existing files, cmd_init only appends to an existing settings.yaml and migrates only an existing '
+            'CSV without rules file. Byte-level before/after comparison is the labelled bounded oracle.',
+    'level_note': _BASE_NOTE + ' Name-based static call graph and syntactic recognition of write primitives (pyvc/callgraph.py) are trusted and conservative; exists() is uninterpreted (A9).',
+    'technique': 'contract-based deductive verification (frame/assigns(fs) clauses: call-graph closure + guard path conditions by symbolic execution over a ghost file system, z3) + bounded before/after oracle',
+}
+
 NOT_APPLICABLE = {}
